@@ -1,5 +1,6 @@
 import Driver.Util
 import ZixModel.Model.Avl
+import ZixModel.Properties.C08Avl
 namespace Driver.C06
 open Zix.Avl
 
@@ -7,8 +8,18 @@ def dump : T → Nat → List String
   | .nil, _ => []
   | .node l i k b r, p => s!"{i}:{k}:{b}:{p}" :: (dump l i ++ dump r i)
 
-def wb (t : Tree) (cmps : Nat) : String :=
-  s!" | size={t.size} cmp={cmps} [{" ".intercalate (dump t.root 0)}]"
+/-- allocator events as the tracking allocator logs them: the header comes from malloc, nodes from calloc -/
+def fmtEv : Zix.C08Avl.AEv → String
+  | .alloc b => if b = 1 then "M1" else s!"C{b}"
+  | .refused => "C0"
+  | .free b => s!"f{b}"
+
+def fmtEvs (es : List Zix.C08Avl.AEv) : String := "ev[" ++ " ".intercalate (es.map fmtEv) ++ "]"
+
+def wbE (t : Tree) (cmps : Nat) (es : List Zix.C08Avl.AEv) : String :=
+  s!" | size={t.size} cmp={cmps} {fmtEvs es} [{" ".intercalate (dump t.root 0)}]"
+
+def wb (t : Tree) (cmps : Nat) : String := wbE t cmps []
 
 def depthOf (id : Nat) : T → Nat → Option Nat
   | .nil, _ => none
@@ -38,20 +49,21 @@ def refId (t : Tree) (tok : String) : Option Nat :=
 
 def step (t : Tree) (ws : List String) : Tree × String :=
   match ws with
-  | ["new", d] => let t' := Tree.new (d == "1"); (t', "new" ++ wb t' 0)
+  | ["new", d] => let t' := Tree.new (d == "1"); (t', "new" ++ wbE t' 0 Zix.C08Avl.newEvents)
   | ["ins", k] =>
     match k.toInt? with
     | some e =>
       let (t', st, id) := t.insert e
       let cmps' := insertCmps t.dups e t.root 0
-      (t', s!"st={if st == .success then "SUCCESS" else "EXISTS"} it={id} size={t'.size}" ++ wb t' cmps')
+      let o := (Zix.C06.treeStep t (.ins e)).2
+      (t', s!"st={if st == .success then "SUCCESS" else "EXISTS"} it={id} size={t'.size}" ++ wbE t' cmps' (Zix.C08Avl.evOf (.ins e) o))
     | none => (t, "bad-op")
   | ["insfail", k] =>
     match k.toInt? with
     | some e =>
       match t.insertMayFail e false with
       | (t', some (_, id)) => (t', s!"st=EXISTS it={id} size={t'.size}" ++ wb t' (insertCmps t.dups e t.root 0))
-      | (t', none) => (t', s!"st=NO_MEM it=0 size={t'.size}" ++ wb t' (insertCmps t.dups e t.root 0))
+      | (t', none) => (t', s!"st=NO_MEM it=0 size={t'.size}" ++ wbE t' (insertCmps t.dups e t.root 0) (Zix.C08Avl.evOf (.insFail e) (Zix.C06.treeStep t (.insFail e)).2))
     | none => (t, "bad-op")
   | ["find", k] =>
     match k.toInt? with
@@ -66,7 +78,7 @@ def step (t : Tree) (ws : List String) : Tree × String :=
     match refId t r with
     | some id =>
       match t.remove id with
-      | some t' => (t', s!"st=SUCCESS removed={id} size={t'.size}" ++ wb t' 0)
+      | some t' => (t', s!"st=SUCCESS removed={id} size={t'.size}" ++ wbE t' 0 (Zix.C08Avl.evOf (.rm id) (Zix.C06.treeStep t (.rm id)).2))
       | none => (t, "bad-op")
     | none => (t, "bad-op")
   | ["walk"] =>
@@ -75,7 +87,7 @@ def step (t : Tree) (ws : List String) : Tree × String :=
   | ["free"] =>
     let po := t.root.postorder
     let t' := Tree.new t.dups
-    (t', s!"destroyed={po.length} order=[{ids po}]")
+    (t', s!"destroyed={po.length} order=[{ids po}] | {fmtEvs (Zix.C08Avl.freeEvents t)}")
   | _ => (t, "bad-op")
 
 end Driver.C06
